@@ -35,6 +35,18 @@ def scenario(rng):
             "noise_seed": rng.randrange(10 ** 6)}
 
 
+def precise_vs_imprecise(rng):
+    """Public support on which a and b are perfectly correlated; a precise measurement already matched by uniform weights
+    and an imprecise one that disagrees: any sizeable move away from uniform makes the (correctly weighted) fit worse."""
+    T = rng.choice([10.0, 40.0])
+    k = rng.choice([1, 2, 3])
+    s_lo, s_hi = rng.choice([0.05, 0.1, 0.2]), rng.choice([5.0, 10.0, 20.0])
+    return {"attrs": ["a", "b"], "sizes": [2, 2], "public": [[0, 0], [1, 1]] * k, "private": [[0, 0]] * 3,
+            "meas": [{"proj": ["a"], "kind": "identity", "noise": s_lo, "y": [T / 2, T / 2]},
+                     {"proj": ["b"], "kind": "identity", "noise": s_hi, "y": [T, 0.0]}],
+            "total_mode": "explicit", "total": T, "noise_seed": 0}
+
+
 def build(sc):
     dom = Domain(sc["attrs"], sc["sizes"])
     pub = Dataset(pd.DataFrame(sc["public"], columns=sc["attrs"], dtype=int), dom)
@@ -45,10 +57,13 @@ def build(sc):
         x = priv.project(list(m["proj"])).datavector()
         Q = E.qmat(m["kind"], x.size)
         y = Q @ x + rs.normal(0, m["noise"], Q.shape[0])
+        if "y" in m:
+            y = np.array(m["y"], dtype=float)
         if sc["total_mode"] == "estimated_negative":
             y = y - (x.sum() + 3.0) / max(1, x.size) * np.abs(Q).sum(axis=1)      # noisy answers whose implied total is below zero
         meas.append((Q, y, m["noise"], tuple(m["proj"])))
-    total = {"given": float(len(sc["private"])), "estimated": None, "other": 7.5, "estimated_negative": None}[sc["total_mode"]]
+    total = {"given": float(len(sc["private"])), "estimated": None, "other": 7.5, "estimated_negative": None,
+             "explicit": sc.get("total")}[sc["total_mode"]]
     return pub, meas, total
 
 
@@ -135,7 +150,7 @@ def run(ctx, canary=False):
         ctx.violation("design-level: %s violated in PublicMD.tla" % r.violated, {"tlc": r.trace_text()}, {"kind": "design"})
     traces = []
     stats = {"negative_rhs_steps": 0, "accepted_increase": 0, "runs": 0}
-    scs = [scenario(rng) for _ in range(900 if thorough else 110)]
+    scs = [scenario(rng) for _ in range(900 if thorough else 110)] + [precise_vs_imprecise(rng) for _ in range(60 if thorough else 8)]
     import multiprocessing
     with multiprocessing.get_context("fork").Pool(16) as pool:
         outs = pool.map(one_run, scs, chunksize=2)
